@@ -98,6 +98,7 @@ Fixpoint segs_tokens (segs : list seg) : option (list token) :=
   | [] => Some []
   | SLit s :: r => match segs_tokens r with Some t => Some (TText s :: t) | None => None end
   | STok toks _ :: r => match segs_tokens r with Some t => Some (toks ++ t) | None => None end
+  | SKey toks _ :: r => match segs_tokens r with Some t => Some (toks ++ t) | None => None end
   | SRaw _ _ :: _ => None
   end.
 
